@@ -1,6 +1,7 @@
 pub mod common;
 pub mod evalorder;
 pub mod lattice;
+pub mod numbers;
 pub mod parse_rt;
 pub mod patterns;
 pub mod query;
@@ -25,6 +26,7 @@ pub fn all() -> Vec<Box<dyn Family>> {
         Box::new(patterns::Patterns),
         Box::new(evalorder::EvalOrder),
         Box::new(schedules::Schedules),
+        Box::new(numbers::Numbers),
     ]
 }
 
